@@ -297,6 +297,13 @@ def restrictions():
     for rng_ in ((-1.0, 1.0), (-0.5, 0.5), (0.0, 1.0), (-2.0, 0.0), (1e-3, 1e-3)):
         add("ic_options:RandomTruncatedFourierSeries:offset_range_%s_with_std_one" % (rng_,), lambda rng_=rng_: I.RandomTruncatedFourierSeries(2, offset_range=rng_, std_one=True), ValueError, lambda rng_=rng_: I.RandomTruncatedFourierSeries(2, offset_range=rng_, max_one=True))
         add("ic_options:RandomSineWaves1d:offset_range_%s_with_std_one" % (rng_,), lambda rng_=rng_: I.RandomSineWaves1d(1, offset_range=rng_, std_one=True), ValueError, lambda rng_=rng_: I.RandomSineWaves1d(1, offset_range=rng_, max_one=True))
+    # the same restrictions with Python ints (a plain 1 is as much a non-zero offset as 1.0)
+    for off in (1, -2, 3):
+        add("ic_options:SineWaves1d:int_offset_%d_with_std_one" % off, lambda off=off: I.SineWaves1d(1.0, (1.0,), (1,), (0.0,), offset=off, std_one=True), ValueError,
+            lambda off=off: (I.SineWaves1d(1.0, (1.0,), (1,), (0.0,), offset=off, max_one=True), I.SineWaves1d(1.0, (1.0,), (1,), (0.0,), offset=0, std_one=True)))  # fmt: skip
+    for rng_ in ((1, 1), (0, 1), (-1, 1), (-3, 0)):
+        add("ic_options:RandomTruncatedFourierSeries:int_offset_range_%s_with_std_one" % (rng_,), lambda rng_=rng_: I.RandomTruncatedFourierSeries(1, offset_range=rng_, std_one=True), ValueError, lambda rng_=rng_: (I.RandomTruncatedFourierSeries(1, offset_range=rng_, max_one=True), I.RandomTruncatedFourierSeries(1, offset_range=(0, 0), std_one=True)))
+        add("ic_options:RandomSineWaves1d:int_offset_range_%s_with_std_one" % (rng_,), lambda rng_=rng_: I.RandomSineWaves1d(1, offset_range=rng_, std_one=True), ValueError, lambda rng_=rng_: (I.RandomSineWaves1d(1, offset_range=rng_, max_one=True), I.RandomSineWaves1d(1, offset_range=(0, 0), std_one=True)))
     add("sine_waves_mismatched_lengths", lambda: I.SineWaves1d(1.0, (1.0, 2.0), (1,), (0.0,)))
     add("sine_waves_mismatched_phases", lambda: I.SineWaves1d(1.0, (1.0,), (1,), (0.0, 1.0)))
     add("gaussian_blob_wrong_coordinates", lambda: GaussianBlob(jnp.ones(2) * 0.5, jnp.eye(2) * 0.1)(ex.make_grid(3, 1.0, N0)), ValueError, lambda: GaussianBlob(jnp.ones(2) * 0.5, jnp.eye(2) * 0.1)(ex.make_grid(2, 1.0, N0)))
